@@ -1345,7 +1345,7 @@ class WCS(GWCSAPIMixin):
             transform_0.bounding_box = value
         else:
             if (transform_0.n_inputs == 1 and isinstance(value, (tuple, list, np.ndarray))
-                    and np.shape(value) not in [(2,), (1, 2)]):
+                    and _sequence_shape(value) not in [(2,), (1, 2)]):
                 # astropy takes an array of shape (2, k) for one interval of arrays
                 raise ValueError("The bounding box of a transform with one input is one "
                                  "interval: (lower, upper).")
@@ -2977,6 +2977,16 @@ def _fit_2D_poly(degree, max_error, plate_scale,
             )
 
     return fit_poly_x, fit_poly_y, fit_error / plate_scale
+
+
+def _sequence_shape(value):
+    """
+    The shape of a (nested) sequence whose items may be quantities
+    (``np.shape`` cannot convert a sequence of quantities).
+    """
+    if isinstance(value, (tuple, list)):
+        return (len(value),) + (_sequence_shape(value[0]) if len(value) else ())
+    return np.shape(value)
 
 
 def _make_sampling_grid(npoints, bounding_box, crpix):
